@@ -672,7 +672,7 @@ type scaleGen struct {
 	g *tr.G
 }
 
-func (s *scaleGen) emit(ops, recipe, tag string, composed bool, more ...string) {
+func (s *scaleGen) emit(ops, recipe, tag string, composed bool, more ...string) (chunksAfterNew int) {
 	g := s.g
 	out, orc := execScale(ops, recipe)
 	in := "S " + ops + " " + orc + " " + recipe
@@ -738,6 +738,7 @@ func (s *scaleGen) emit(ops, recipe, tag string, composed bool, more ...string) 
 	if f["P"] != "ok" {
 		g.W.Count("scale-property-violated", 1)
 	}
+	return nN
 }
 
 // the call histories a text is run under, for context size n
